@@ -293,7 +293,9 @@ func runC08(r *Run) {
 	}
 	rb, _ := p.Reach(roots["begin"])
 	re, _ := p.Reach(roots["end"])
-	isAdd := func(n string) bool { return strings.HasPrefix(n, "(*data/transactions.TransactionStore).Add") || n == fname(tset) }
+	isAdd := func(n string) bool {
+		return strings.HasPrefix(n, "(*data/transactions.TransactionStore).Add") || n == fname(tset)
+	}
 	isDel := func(n string) bool { return strings.HasPrefix(n, "(*data/transactions.TransactionStore).Delete") }
 	nQ := 0
 	for _, fn := range sortedFns(p.Fns) {
